@@ -318,6 +318,9 @@ int verif_fileno(FILE *f)
 
 /* ------------------------------ read / write ------------------------------ */
 
+#ifndef VERIF_MAX_EINTR
+#define VERIF_MAX_EINTR 2
+#endif
 #define RW_MAX 0x7ffff000L /* Linux transfers at most this many bytes */
 
 ssize_t verif_read(int fd, void *buf, size_t n)
@@ -345,14 +348,17 @@ ssize_t verif_read(int fd, void *buf, size_t n)
     int stage = g.fork_stage;
     g.fork_stage = stage + 1;
     g.may_block = g.may_block || blocking;
-#ifndef VERIF_EXCLUDE_D10
-    if (!gc.cfg_nofault && nondet_bool()) {
-      fault(EINTR);
+    /* a signal handler may interrupt the read: the library retries. At most
+       VERIF_MAX_EINTR interruptions in a row are modelled (environment bound). */
+    if (!gc.cfg_nofault && g.eintr_run < VERIF_MAX_EINTR && nondet_bool()) {
+      g.eintr_run++;
+      g.fork_stage = stage; /* nothing consumed */
+      g.e.err = EINTR;
       g.rl.rd_errno = EINTR;
       g.rl.rd_ret = -1;
       return -1;
     }
-#endif
+    g.eintr_run = 0;
     if ((stage == 1 && g.child_fate == FATE_FAILED_EARLY) ||
         (stage == 2 && g.child_fate == FATE_FAILED_LATE)) {
       *(int *) buf = g.child_fate_errno;
@@ -585,13 +591,32 @@ pid_t verif_waitpid(pid_t pid, int *wstatus, int options)
     return -1;
   }
   int e = maybe_fault();
-#ifdef VERIF_EXCLUDE_D10
-  if (g.fork_stage != 0 && g.fork_stage != 4) {
-    e = 0; /* known finding D10: the reaping waitpid inside start is not interrupted */
+  if (e == EINTR && g.fork_stage != 0) {
+    /* inside start the library retries an interrupted waitpid: interruptions
+       come in runs of at most VERIF_MAX_EINTR (environment bound) and are not
+       failures start has to report. (Outside start - reproc_wait - EINTR is an
+       error like any other and is returned to the caller.) */
+    if (g.eintr_run >= VERIF_MAX_EINTR) {
+      e = 0;
+    } else {
+      g.eintr_run++;
+      g.e.err = EINTR;
+      g.wait_eintr = true;
+      return -1;
+    }
   }
-#endif
+  g.eintr_run = 0;
   if (e) {
     fault(e);
+    if (g.fork_stage != 0) {
+      /* inside start the only other way waitpid on the own child fails is ECHILD:
+         SIGCHLD is ignored and the kernel has already reaped the child */
+      g.e.err = ECHILD;
+      g.e.last_fault = ECHILD;
+      if (g.e.faults == 1) g.e.first_errno = ECHILD;
+      g.child_live = false;
+      g.child_reaped = true;
+    }
     return -1;
   }
   if ((options & WNOHANG) != 0 && nondet_bool()) {
